@@ -153,7 +153,8 @@ class S3Compatible(Backend, short_name='S3C'):
         date = f'{now:%Y%m%d}'
 
         canonical_headers = {
-            'host': self.host,
+            # The value HTTPX is going to send: lowercase, without the default port
+            'host': httpx.URL(url).netloc.decode('ascii'),
             'x-amz-content-sha256': payload_digest,
             'x-amz-date': x_amz_date,
         }
